@@ -6,7 +6,7 @@ import copy
 
 from ..core import rng_from
 from ..crashloop import explore
-from ..swarm import draw_smc_scenario, pick
+from ..swarm import PRECONDS_WITH_FLOW, draw_smc_scenario, pick
 from . import c11 as _c11
 from .common import COMPONENTS, crash_case, shrink_scenario_candidates
 
@@ -48,7 +48,7 @@ def scenario_of(case):
         particles=(12, 32) if quick else (12, 64),
         kernel_steps=(1, 2),
         xps=("numpy",) if quick else ("numpy", "numpy", "torch", "jax"),
-        hard=bool(case["run_index"] % 2),
+        hard=bool(case["run_index"] % 2), preconds=PRECONDS_WITH_FLOW,
     )
     rng = rng_from(case["fault_seed"])
     if scn["checkpoint"]["mode"] == "auto":
